@@ -394,6 +394,118 @@ Proof.
     destruct (Concrete.spec_ok c); try discriminate; destruct (Concrete.agree c); auto; discriminate.
 Qed.
 
+(* ------------------------------------------------------------------ Script() call histories *)
+Lemma opt_bytes_eqb_eq : forall a b : option bytes, opt_eqb bytes_eqb a b = true <-> a = b.
+Proof.
+  intros [a|] [b|]; cbn [opt_eqb]; split; intro H; try discriminate; try reflexivity.
+  - apply bytes_eqb_eq in H. now subst.
+  - injection H as ->. apply bytes_eqb_refl.
+Qed.
+
+Lemma list_opt_eqb_eq : forall a b : list (option bytes),
+    list_eqb (opt_eqb bytes_eqb) a b = true <-> a = b.
+Proof.
+  induction a as [|x a IH]; intros [|y b]; cbn [list_eqb]; split; intro H;
+    try discriminate; try reflexivity.
+  - apply andb_prop in H as [H1 H2]. apply opt_bytes_eqb_eq in H1. apply IH in H2. now subst.
+  - injection H as -> ->. apply andb_true_intro. split; [now apply opt_bytes_eqb_eq|now apply IH].
+Qed.
+
+(* no memory: whatever the process has computed before ([past]), a sequence of Script() calls
+   returns the pure function's value for each call's own parameters *)
+Theorem history_is_map : forall past l, run_history past l = map script_of l.
+Proof.
+  intros past l. revert past. induction l as [|d t IH]; intro past; cbn [run_history map];
+    [reflexivity|]. now rewrite IH.
+Qed.
+
+Theorem history_past_irrelevant : forall past past' l, run_history past l = run_history past' l.
+Proof. intros. now rewrite !history_is_map. Qed.
+
+(* later calls do not change what earlier calls returned *)
+Theorem history_prefix_stable : forall past l l',
+    firstn (length l) (run_history past (l ++ l')) = run_history past l.
+Proof.
+  intros. rewrite !history_is_map, map_app.
+  rewrite <- (map_length script_of l), firstn_app, Nat.sub_diag, firstn_all. cbn [firstn].
+  now rewrite app_nil_r.
+Qed.
+
+(* every script of a history is the deposit script of THAT call's parameters - so the spend
+   theorems (spend_characterisation ...) apply to it with that call's key hashes and locktime,
+   whatever the earlier and later calls were *)
+Theorem history_call_script : forall past l n di s,
+    nth_error l n = Some di -> nth_error (run_history past l) n = Some (Some s) ->
+    exists b, hex_decode (trim0x (di_depositor di)) = Some b /\ length b = 20%nat /\
+              s = deposit_script_bytes (to_dep di b) /\
+              (arrays_ok di = true -> dep_wf (to_dep di b) /\ s = ser (deposit_ops (to_dep di b))).
+Proof.
+  intros past l n di s H1 H2. rewrite history_is_map in H2.
+  rewrite (map_nth_error script_of n l H1) in H2. injection H2 as H2.
+  now apply script_of_spec.
+Qed.
+
+Theorem hspec_ok_sound : forall l,
+    History.hspec_ok l = true ->
+    forall e, In e l -> Concrete.spec_ok (he_case e) = true /\ he_late e = dc_script (he_case e).
+Proof.
+  intros l H e I. unfold History.hspec_ok in H. rewrite forallb_forall in H.
+  apply H in I. apply andb_prop in I as [I1 I2]. split; [assumption|].
+  now apply opt_bytes_eqb_eq.
+Qed.
+
+Theorem hagree_sound : forall l,
+    History.hagree l = true ->
+    map (fun e => dc_script (he_case e)) l = map script_of (map (fun e => dc_in (he_case e)) l).
+Proof.
+  intros l H. unfold History.hagree in H. apply andb_prop in H as [H _].
+  apply list_opt_eqb_eq in H. now rewrite <- H, history_is_map.
+Qed.
+
+(* the executable property holds of every history the model produces: scripts = run_history of
+   the parameters, re-read unchanged, spends answered as [spend_characterisation] predicts *)
+Theorem model_history_passes_spec : forall past l,
+    map (fun e => dc_script (he_case e)) l = run_history past (map (fun e => dc_in (he_case e)) l) ->
+    (forall e, In e l ->
+       arrays_ok (dc_in (he_case e)) = true /\ he_late e = dc_script (he_case e) /\
+       (dc_script (he_case e) = None -> dc_spends (he_case e) = []) /\
+       forall s, In s (dc_spends (he_case e)) ->
+         sp_engine s = spend_allowed (di_wpkh (dc_in (he_case e))) (di_rpkh (dc_in (he_case e)))
+                                     (di_lock (dc_in (he_case e)))
+                                     (table_fn (dc_hash160 (he_case e)) (sp_pk s)) (Concrete.good_of s)
+                                     (tx_lock (sp_tx s)) (Concrete.seq_of s)) ->
+    History.hspec_ok l = true.
+Proof.
+  intros past l E H. rewrite history_is_map, map_map in E.
+  unfold History.hspec_ok. apply forallb_forall. intros e I.
+  destruct (H e I) as (A & L & N & S).
+  assert (Ee : dc_script (he_case e) = script_of (dc_in (he_case e))).
+  { clear - E I. induction l as [|x l IH]; [destruct I|]. cbn [map] in E. injection E as E1 E2.
+    destruct I as [<- | I]; [assumption|now apply IH]. }
+  apply andb_true_intro. split.
+  - unfold Concrete.spec_ok. destruct (dc_script (he_case e)) as [script|] eqn:D.
+    + apply andb_true_intro. split.
+      * apply model_script_embeds; [assumption|now symmetry].
+      * apply forallb_forall. intros s Is. apply predicted_verdict_passes_spec. now apply S.
+    + rewrite <- Ee, (N eq_refl). reflexivity.
+  - unfold History.late_ok. now apply opt_bytes_eqb_eq.
+Qed.
+
+Theorem judge_any_agree_sound : forall a,
+    judge_any a = Agree ->
+    match a with
+    | DOne c => Concrete.spec_ok c = true /\ Concrete.agree c = true
+    | DHist l => History.hspec_ok l = true /\ History.hagree l = true
+    end.
+Proof.
+  intros [c|l] H; cbn [judge_any] in H.
+  - now apply judge_agree_sound.
+  - unfold History.hjudge, decide in H. destruct l as [|e l]; [discriminate|].
+    destruct (existsb _ _); [discriminate|].
+    destruct (History.hspec_ok (e :: l)); try discriminate.
+    destruct (History.hagree (e :: l)); try discriminate. auto.
+Qed.
+
 (* ------------------------------------------------------------------ non-vacuity *)
 Module Witness.
   Definition h160 (x : bytes) : bytes :=
@@ -433,3 +545,21 @@ Proof.
   split; [repeat split|]. split; [repeat split|].
   intros w extra [-> | ->] [-> | ->]; vm_compute; repeat split.
 Qed.
+
+(* a history over ONE funding outpoint whose calls differ in the refund locktime only: the second
+   call gets its own script, the third the first one again *)
+Module HistWitness.
+  Definition di (lock0 : N) : dep_in :=
+    {| di_depositor := 48 :: 120 :: hex_encode (repeat 1 20); di_blinding := repeat 3 8;
+       di_extra := None; di_wpkh := repeat 7 20; di_rpkh := repeat 5 20;
+       di_lock := [lock0; 241; 83; 101] |}.
+End HistWitness.
+
+Example history_follows_parameters :
+  let a := HistWitness.di 0 in
+  let b := HistWitness.di 1 in
+  arrays_ok a = true /\ arrays_ok b = true /\
+  run_history [a] [a; b; a] = [script_of a; script_of b; script_of a] /\
+  script_of a <> None /\ script_of b <> None /\ script_of a <> script_of b.
+Proof. vm_compute. repeat split; discriminate. Qed.
+
